@@ -197,6 +197,7 @@ type Rig struct {
 	// loader behaviour for the current op of a thread
 	loadPlan         map[int]string
 	stamp            int64
+	savedIter        func() []int // iterator obtained by "mkiter", ranged by "useiter"
 	inLoader         atomic.Int32 // loader invocations currently running (gate for "awaitload")
 	threadsDone      atomic.Int32
 	quiet            bool // race pass: handlers, calculators and loaders record nothing
@@ -823,6 +824,70 @@ func (r *Rig) Do(th int, op string) (res OpResult) {
 		for e := range it {
 			res.List = append(res.List, e.Key)
 			res.Entries = append(res.Entries, e)
+		}
+	case "mkiter":
+		// obtain an iterator now, range over it later ("useiter"): the sequence is evaluated when it is ranged
+		switch f[1] {
+		case "all":
+			it := c.All()
+			r.savedIter = func() []int {
+				var ks []int
+				for k := range it {
+					ks = append(ks, k)
+				}
+				return ks
+			}
+		case "keys":
+			it := c.Keys()
+			r.savedIter = func() []int {
+				var ks []int
+				for k := range it {
+					ks = append(ks, k)
+				}
+				return ks
+			}
+		default:
+			it := c.Coldest()
+			if f[1] == "hottest" {
+				it = c.Hottest()
+			}
+			r.savedIter = func() []int {
+				var ks []int
+				for e := range it {
+					ks = append(ks, e.Key)
+				}
+				return ks
+			}
+		}
+	case "useiter":
+		res.List = []int{}
+		if r.savedIter != nil {
+			res.List = append(res.List, r.savedIter()...)
+			res.OK = true
+		}
+	case "all1", "keys1", "coldest1", "hottest1":
+		// an iteration that the consumer abandons after the first element (the iterator must release what it holds)
+		res.List = []int{}
+		switch f[0] {
+		case "all1":
+			for k := range c.All() {
+				res.List = append(res.List, k)
+				break
+			}
+		case "keys1":
+			for k := range c.Keys() {
+				res.List = append(res.List, k)
+				break
+			}
+		default:
+			it := c.Coldest()
+			if f[0] == "hottest1" {
+				it = c.Hottest()
+			}
+			for e := range it {
+				res.List = append(res.List, e.Key)
+				break
+			}
 		}
 	case "runexec":
 		res.Int = r.RunDeferred(arg(1, 0))
